@@ -8,13 +8,24 @@ prop = sys.argv[1]
 flt = sys.argv[2] if len(sys.argv) > 2 else None
 ms = json.load(open(os.path.join(V, "mutants", prop + ".json")))
 res = []
-evp = os.path.join(V, "evidence", prop + ".json")
-ev_saved = open(evp).read() if os.path.exists(evp) else None
-assert subprocess.run(["git", "-C", "/repo", "status", "--porcelain", "--untracked-files=no"], capture_output=True, text=True).stdout.strip() == "", "/repo not clean"
+# work on a scratch copy of the crate (and of the witness crate, pointed at the copy): /repo itself is never touched
+import shutil, tempfile
+SCR = f"/tmp/vxmut_{prop}"
+shutil.rmtree(SCR, ignore_errors=True)
+os.makedirs(SCR)
+subprocess.run(["rsync", "-a", "--exclude", "target", "--exclude", ".git", "/repo/", SCR + "/repo/"], check=True)
+subprocess.run(["rsync", "-a", "--exclude", "target", os.path.join(V, "witness") + "/", SCR + "/witness/"], check=True)
+ct = open(SCR + "/witness/Cargo.toml").read().replace('path = "/repo"', f'path = "{SCR}/repo"')
+open(SCR + "/witness/Cargo.toml", "w").write(ct)
+cc = SCR + "/witness/.cargo/config.toml"
+open(cc, "w").write(open(cc).read().replace("/verif/.work/witness-target", SCR + "/witness-target"))
+ENV = dict(os.environ, VERIF_REPO=SCR + "/repo", VERIF_WITNESS=SCR + "/witness", VERIF_WORK=SCR + "/work", VERIF_NO_EVIDENCE="1")
+REPO = SCR + "/repo"
 for m in ms:
     if flt and flt not in m["name"]:
         continue
-    path = os.path.join("/repo", m["file"])
+    path = os.path.join(REPO, m["file"])
+    orig = open(path).read()
     s = open(path).read()
     n = s.count(m["old"])
     if n < 1 or (n > 1 and "nth" not in m):
@@ -26,16 +37,15 @@ for m in ms:
         s2 = s.replace(m["old"], m["new"])
     open(path, "w").write(s2)
     try:
-        p = subprocess.run([os.path.join(V, "check"), prop, "quick"], capture_output=True, text=True)
+        p = subprocess.run([os.path.join(V, "check"), prop, "quick"], capture_output=True, text=True, env=ENV)
         want = 0 if m.get("neutral") else 1
         ok = p.returncode == want
         lines = [l for l in p.stdout.splitlines() if l.startswith(("FAILED", "VIOLATION", "UNDECIDED"))]
-        print(("KILLED " if want == 1 and ok else "GREEN  " if want == 0 and ok else "MISSED " if want == 1 else "ALARM  ") + m["name"], f"rc={p.returncode}", "|", (lines[0] if lines else "")[:150])
+        print(flush=True, end=""); print(("KILLED " if want == 1 and ok else "GREEN  " if want == 0 and ok else "MISSED " if want == 1 else "ALARM  ") + m["name"], f"rc={p.returncode}", "|", (lines[0] if lines else "")[:150])
         res.append((m["name"], "ok" if ok else "bad"))
     finally:
-        subprocess.run(["git", "-C", "/repo", "checkout", "--", m["file"]])
-if ev_saved is not None:
-    open(evp, "w").write(ev_saved)   # evidence must describe the unchanged tree, not the last mutant
+        open(path, "w").write(orig)
+shutil.rmtree(SCR, ignore_errors=True)
 bad = [r for r in res if r[1] != "ok"]
 print(f"{len(res) - len(bad)}/{len(res)} as expected")
 sys.exit(1 if bad else 0)
